@@ -58,6 +58,12 @@ def run(chk):
     chk.rule("C08.R3", "stores have the requested counts and shapes", floor=5)
     chk.rule("C08.R4", "grid method: start at the lower bound, step giving the requested count (float-step arange is a finding)", floor=5)
     chk.rule("C08.R5", "batches are dynamic slices of the store with the declared batch shape", floor=5)
+    chk.rule("C08.R6", "space-time batches of the non-stationary generator: column 0 holds the times of the time batch, the other "
+                       "columns the coordinates of the spatial / border batch of the same facet (every entry stays in its own "
+                       "interval); rows are the declared product / pairing", floor=8)
+    from .C14 import spacetime_batch_obligations
+    for cfg, go, construct in spacetime_batch_obligations(G):
+        chk.run("C08.R6", f"{MOD}:CubicMeshPDENonStatio.get_batch", cfg, go, construct=construct)
     k = Sym('k')
     keys = tuple(Sym(f'k{i}') for i in range(4))
 
@@ -280,6 +286,42 @@ def run(chk):
                 only_arange(v, name)
             return grid_rule(v, lo, hi, count, name)
         chk.run("C08.R4", f"{MOD}:{name}", {"method": "grid"}, go, construct=f"grid {name}")
+
+    # ---------------- R4 (continued): the assembled grid for dim >= 2, on small concrete counts: linspace with a concrete count is
+    # the vector of its points as polynomials in the bounds, so the store is a concrete table whose rows must be exactly the
+    # cartesian product of the per-axis grids {min_i + (max_i - min_i) k / m}, each point once, coordinate i in column i
+    import itertools
+    from fractions import Fraction
+    from ..alg import lift
+
+    def go_grid_table(d, m, cname):
+        box = dict(min_pts=tuple(K(f'min{i}') for i in range(d)), max_pts=tuple(K(f'max{i}') for i in range(d)))
+        n = m ** d
+        kw = dict(key=Sym('key'), n=n, nb=None, omega_batch_size=m, omega_border_batch_size=None, dim=d, method='grid', **box)
+        if cname == "CubicMeshPDENonStatio":
+            kw.update(temporal_batch_size=2, tmin=K('tmin'), tmax=K('tmax'), nt=4)
+        gen = G.cls(cname)(**kw)
+        om = gen.fields['omega']
+        if isinstance(om, Sym):
+            raise Inconclusive(f"grid store is not built from concrete-count linspace vectors: {str(om)[:160]}")
+        om = expect_axes(om, (n, d), f"{cname} grid store")
+        axis_pts = [[lift(box['min_pts'][i]) + (lift(box['max_pts'][i]) - lift(box['min_pts'][i])) * Fraction(k, m) for k in range(m)]
+                    for i in range(d)]
+        want = {tuple(str(axis_pts[i][ks[i]]) for i in range(d)) for ks in itertools.product(range(m), repeat=d)}
+        rows = [tuple(str(om.data[r, c]) for c in range(d)) for r in range(n)]
+        for r, row in enumerate(rows):
+            for c in range(d):
+                if row[c] not in {str(p) for p in axis_pts[c]}:
+                    raise Violation(f"{cname} grid row {r}", f"coordinate {c} of stored point {r} is {row[c]}",
+                                    f"a point of axis {c}'s grid between min{c} and max{c}")
+        if set(rows) != want or len(set(rows)) != n:
+            raise Violation(f"{cname} grid", f"{len(set(rows))} distinct points of {n}; missing {sorted(want - set(rows))[:2]}",
+                            f"every point of the {'x'.join([str(m)] * d)} product grid exactly once")
+        return f"{n} stored points == the {'x'.join([str(m)] * d)} product grid, coordinate i in column i"
+    for cname in ("CubicMeshPDEStatio", "CubicMeshPDENonStatio"):
+        for d, m in ((2, 2), (2, 3), (3, 2), (3, 3)):
+            chk.run("C08.R4", f"{MOD}:{cname}.generate_data[{d}D grid table]", {"method": "grid", "dim": d, "points_per_axis": m},
+                    (lambda d=d, m=m, cname=cname: go_grid_table(d, m, cname)), construct=f"grid table {cname}")
 
     # ---------------- R5 batch shapes
     from ..alg import lift
